@@ -108,10 +108,17 @@ OuterCases == { Case("outer", T, Iota(0, r[1]), Iota(r[1], r[2]), v, H(Iota(0, r
 \* outer with a Tensor<T,1> operand takes dedicated overloads;  outer(Tensor<T,1>, Tensor<T,1>) is ambiguous in every configuration: not offered
 OuterUnit == { [form |-> "outer", T |-> T, la |-> s[1], lb |-> s[2], sa |-> s[3], sb |-> s[4], out |-> <<>>, v |-> 2] :
                  s \in { << <<0>>, <<1>>, <<3>>, <<1>> >>, << <<0, 1>>, <<2>>, <<2, 4>>, <<1>> >>, << <<0>>, <<1, 2>>, <<1>>, <<2, 3>> >> }, T \in TypesA }
+\* the outer-product back end (backend/dyadic.h) has hand-written kernels keyed on the TOTAL sizes of the operands: (1,1), (2,2), (3,3), (4,4),
+\* float and double -- reached by outer(), einsum<> and contraction<> without a repeated label; every shape with those sizes, both types (+ i32)
+DyadicShapes == { << <<0>>, <<1>>, <<2>>, <<2>> >>, << <<0>>, <<1>>, <<3>>, <<3>> >>, << <<0>>, <<1>>, <<4>>, <<4>> >>,
+                  << <<0, 1>>, <<2, 3>>, <<2, 2>>, <<2, 2>> >>, << <<0>>, <<1, 2>>, <<4>>, <<2, 2>> >>, << <<0, 1>>, <<2>>, <<2, 2>>, <<4>> >>,
+                  << <<0>>, <<1, 2>>, <<3>>, <<3, 1>> >> }
+DyadicSpec == { [form |-> f, T |-> T, la |-> s[1], lb |-> s[2], sa |-> s[3], sb |-> s[4], out |-> <<>>, v |-> 3] :
+                  s \in DyadicShapes, T \in {"f64", "f32", "i32"}, f \in {"outer", "einsum", "contraction"} }
 OuterOffered(x) == ~(x.sa = <<1>> /\ x.sb = <<1>>)
 
 Cases == EinsumCases \cup ContractionCases \cup ExplicitCases \cup SingleCases \cup SingleExplicitCases \cup InnerCases
-         \cup { x \in OuterCases \cup OuterUnit : OuterOffered(x) }
+         \cup { x \in OuterCases \cup OuterUnit : OuterOffered(x) } \cup DyadicSpec
 
 Init == c \in Cases
 Next == UNCHANGED c
